@@ -103,8 +103,16 @@ func sharedBytesIntact() string {
 	return ""
 }
 
+// cryptLongKeys: the second instantiation of the model's secret names -- long pass phrases that agree in their first
+// 48 bytes and differ only at the end (key material that differs only beyond its 32nd byte is still other key material)
+var cryptLongKeys bool
+
 func newCryptFS(base filesystem.Filespace, c cryptCfg) (filesystem.Filespace, error) {
-	return encryptfs.NewEncryptFS(base, encryptfs.Settings{Secret: sharedBytes("secret-" + c.Secret), Salt: sharedBytes("salt-" + c.Salt), HostOnly: c.Host, Cipher: cipherOf(c.Cipher)})
+	secret := "secret-" + c.Secret
+	if cryptLongKeys {
+		secret = "a-long-pass-phrase-shared-by-every-configuration-" + c.Secret
+	}
+	return encryptfs.NewEncryptFS(base, encryptfs.Settings{Secret: sharedBytes(secret), Salt: sharedBytes("salt-" + c.Salt), HostOnly: c.Host, Cipher: cipherOf(c.Cipher)})
 }
 
 func cryptWrite(fs filesystem.Filespace, how, path string, data []byte) error {
@@ -226,6 +234,7 @@ func cmdCrypt(args []string) error {
 			samples = append(samples, inner)
 		}
 		executed++
+		cryptLongKeys = executed%2 == 0
 		wfs, err1 := newCryptFS(base, s.W)
 		rfs, err2 := newCryptFS(base, s.R)
 		if err1 != nil || err2 != nil {
